@@ -699,6 +699,8 @@ fn segments(tier: Tier) -> Vec<Vec<u8>> {
         b"a\xff".to_vec(),
         b"\xff".to_vec(),
         b"\x00\x01a".to_vec(),
+        // 255 x 0xFF: the encoded prefix is 00 FF FF ... FF - everything after its first byte wraps
+        vec![0xff; 255],
     ];
     let _ = tier;
     v.push(vec![0xff; 65535]);
@@ -1302,7 +1304,7 @@ pub fn run_c07(ctx: &Ctx) -> i32 {
         "paths": all_paths.len(),
         "path_pairs_checked_prefix_free": pair_checks,
         "write_sequences_per_base": seqs.len() - 1,
-        "alphabet": {"segments": ["", "a", "b", "ab", "a\\xff", "\\xff", "\\x00\\x01a", "\\xff x 65535"], "view_keys": VKEYS.iter().map(|k| hex(k)).collect::<Vec<_>>(),
+        "alphabet": {"segments": ["", "a", "b", "ab", "a\\xff", "\\xff", "\\x00\\x01a", "\\xff x 255", "\\xff x 65535"], "view_keys": VKEYS.iter().map(|k| hex(k)).collect::<Vec<_>>(),
                      "raw": "every subset of: prefix, prefix+k, prefix+ff, prefix+child-namespace-key, prefix minus one byte, successor(prefix), successor+00, sibling-path key, 00, ffff"},
         "caps_hit": [],
         "samples": sampler.take(),
